@@ -983,12 +983,17 @@ static int write_char(void *context, cif_value_tp *char_value, int allow_text) {
                         result = CIF_DISALLOWED_VALUE;
                     } else {
                         /* write as a text block, possibly with line-folding and/or prefixing  */
-                        result = write_text(context, text, analysis.length,
-                                ((analysis.length_first >= LINE_LENGTH(context))
+                        int fold = ((analysis.length_first >= LINE_LENGTH(context))
                                         || (analysis.length_max > LINE_LENGTH(context))
                                         || analysis.has_reserved_start
-                                        || (analysis.max_semi_run >= (LINE_LENGTH(context) - 1))),
-                                analysis.contains_text_delim);
+                                        || (analysis.max_semi_run >= (LINE_LENGTH(context) - 1)));
+
+                        /*
+                         * When folding, the text starts on the line after the fold marker; if it starts with a
+                         * semicolon then it must be prefixed, too, lest that semicolon close the text block.
+                         */
+                        result = write_text(context, text, analysis.length, fold,
+                                analysis.contains_text_delim || (fold && (text[0] == UCHAR_SEMI)));
                     }
                     break;
                 default: /* unexpected value */
